@@ -96,7 +96,23 @@ const (
 	verifDeliverErr
 )
 
-var verifIOError = status.Error(codes.Unavailable, "verif: injected I/O error")
+var (
+	verifIOErrorStatus = status.Error(codes.Unavailable, "verif: injected I/O error")
+	// verifIOError is THE error the scripted sources fail with on the current path: a gRPC
+	// status or - verifChooseIOError - io.ErrUnexpectedEOF (what a truncated file or a broken
+	// connection yields, and easily mistaken for a clean end of stream).
+	verifIOError = verifIOErrorStatus
+)
+
+func verifChooseIOError() {
+	if vnd.Choose(2) == 1 {
+		verifIOError = io.ErrUnexpectedEOF
+	} else {
+		verifIOError = verifIOErrorStatus
+	}
+}
+
+func init() { vnd.RegisterReset(func() { verifIOError = verifIOErrorStatus }) }
 
 type verifDelivery struct {
 	data []byte
